@@ -399,6 +399,10 @@ def rule_bind(ctx):
 
 def run(ctx):
     from ..report import SubCtx
+    from . import c16
+    sub16 = SubCtx(ctx, 'C17.alloc', 'commands mention only ids the client has allocated, and freeing returns them: the allocators behind Bus, Buffer and node ids, as decided for C16')
+    c16.rule_free(sub16)
+    c16.rule_node(sub16)
     from . import c06
     sub = SubCtx(ctx, 'C17.clump', 'a bind block larger than a datagram leaves through send_clumped_bundles: every collected command lands in exactly one clump, in order, as decided for C06')
     c06.rule_clump(sub)
